@@ -1,9 +1,10 @@
-import GB.C03.ProofsCompile
+import GB.C03.ProofsPath
 /-
   C03 — property theorems. Theorems only; helper lemmas live in Proofs*.lean.
   `Tmpl` is the parsed template (`gwbased.Parse`, property C20), `Table` the routing table as a list of
   (binding id, HTTP method, template) in iteration order, `routesOf` its routes with `MatchAndEscape` read
-  over the AST (`matchTmpl`); `C03_compiled_matcher` shows that is what the compiled pattern computes.
+  over the AST (`matchTmpl`); `C03_compiled_matcher` / `C03_code_table` show that is what the compiled pattern
+  computes and that the table built through `Compile` + `NewPattern` is this one.
 -/
 open GB GB.C03
 
@@ -34,13 +35,47 @@ theorem C03_matcher_other (t : Tmpl) (comps : List Bytes) (verb : Bytes) :
 /-- Compiler correctness, symbolic level: the op sequence `Compile` emits (`rawOps`, operands still strings),
     run on the gateway's stack machine (`runSym`: pos/stack/concat/capture, `tailLen` = ops after the `**`),
     computes exactly the structural matcher — for every template with at most one `**` and every component list.
-    (The resolution of pool / variable indices by `encode` + `npLoop` is tied by the differential run.) -/
+    (The resolution of pool / variable indices by `encode` + `npLoop` is `C03_compiled_matcher` below.) -/
 theorem C03_compiled_program (t : Tmpl) (hd : deepCount t.segs ≤ 1) (comps : List Bytes) :
     rawOps t.segs = (symOps t.segs).map SOp.raw ∧
     runSym (tailLenOfAtoms (atomsOf t.segs)) (symOps t.segs) comps [] [] = matchSegs t.segs comps := by
   refine ⟨rawOps_eq_sym _, ?_⟩
   rw [runSym_segs _ _ _ _ _ (tailOk_tailLenOfAtoms _ hd)]
   cases matchSegs t.segs comps <;> simp
+
+/-- The missing link, closed: the INTEGER program and constant pool `Compile` emits (`encode`: opcode/operand pairs,
+    pool de-duplication with first-occurrence indices, fields), read by the model of `NewPattern` (pool bounds,
+    variable indices, `tailLen`) and interpreted by the model of `MatchAndEscape` (pool lookups by index, `captured`
+    array by variable index, stack, `vars` zip) computes the structural matcher — for every parser-shaped template
+    with at most one `**`, every component list and every verb. -/
+theorem C03_compiled_matcher (t : Tmpl) (hs : t.ShapeOk) (hd : deepCount t.segs ≤ 1) :
+    ∃ P, newPattern 1 (compile t).opcodes (compile t).pool (compile t).verb = some P ∧ P.verb = t.verb ∧
+      ∀ comps verb, matchAndEscape P comps verb = matchTmpl t comps verb :=
+  matchAndEscape_compile t hs hd
+
+/-- `C03_matcher` for the interpreter the gateway runs: the compiled pattern matches iff `Matches`. -/
+theorem C03_matcher_code (t : Tmpl) (hs : t.ShapeOk) (hd : deepCount t.segs ≤ 1) :
+    ∃ P, newPattern 1 (compile t).opcodes (compile t).pool (compile t).verb = some P ∧
+      ∀ comps b, matchAndEscape P comps t.verb = .ok b ↔ Matches t comps t.verb b := by
+  obtain ⟨P, hP, _, hrun⟩ := matchAndEscape_compile t hs hd
+  exact ⟨P, hP, fun comps b => by rw [hrun]; exact C03_matcher t hd comps b⟩
+
+/-- `NewPattern` rejects exactly the (parser-shaped) templates with more than one `**`: those bindings are skipped. -/
+theorem C03_invalid_pattern (t : Tmpl) (hs : t.ShapeOk) :
+    newPattern 1 (compile t).opcodes (compile t).pool (compile t).verb = none ↔ 1 < deepCount t.segs := by
+  constructor
+  · intro h
+    apply Classical.byContradiction
+    intro hn
+    obtain ⟨P, hP, _⟩ := (newPattern_compile t hs).1 (by omega)
+    rw [h] at hP; cases hP
+  · exact (newPattern_compile t hs).2
+
+/-- The routing table the code builds (every binding through `Compile` + `NewPattern`, routes running
+    `MatchAndEscape`) IS the table of the abstract entries: all routing theorems below speak about it. -/
+theorem C03_code_table (ts : List TargetD) (hs : TargetsShapeOk ts) :
+    buildTable mkRouteC ts = routesOf (buildTable mkEntry ts) := by
+  rw [buildTable_C_eq_A ts hs, buildTable_routesOf]
 
 /-- One route step (verb detection on the last raw segment, stripping, matching) decides `PathMatches`. -/
 theorem C03_path_matches {ι : Type} (e : ι × Bytes × Tmpl) (hd : deepCount e.2.2.segs ≤ 1)
@@ -117,6 +152,36 @@ theorem C03_decode_once {ι : Type} (tbl : Table ι) (hwf : ∀ e ∈ tbl, WF e.
   constructor
   · intro h; exact ⟨_, rfl, h⟩
   · rintro ⟨p, hp', h⟩; cases hp'; exact h
+
+/-- The same for absolute-form request targets `scheme://authority/path?query` (authority of the plain
+    `host[:port]` kind): routing runs on the path part of the request line, byte for byte. -/
+theorem C03_decode_once_absolute {ι : Type} (tbl : Table ι) (hwf : ∀ e ∈ tbl, WF e.2.2) (m raw sch rest a q : Bytes)
+    (u : Url) (hsch : getScheme true [] raw = some (some (sch, rest))) (hr : beforeQuery rest = 47 :: 47 :: a)
+    (hq : a.dropWhile (· != 47) = 47 :: q) (hp : parseRequestURI raw = some (some u)) (i : ι) (b : Captures) :
+    routeHTTP (routesOf tbl) m u = .found i b ↔ FirstMatch tbl m (splitSlash q) i b := by
+  unfold routeHTTP
+  rw [pathChoice_parseRequestURI_abs hsch hr hq hp, C03_route_iff tbl hwf]
+
+/-- net/url's default path escaping is undone by exactly one decoding pass, segment by segment:
+    `unescape(escape(s)) = s`, for the matcher's single-segment decoder as well, and `/` is neither escaped nor
+    produced by escaping. -/
+theorem C03_escape_roundtrip (s : Bytes) :
+    urlUnescape (urlEscape s) = some s ∧ decodeOnce false (urlEscape s) = some s ∧
+      splitSlash (urlEscape s) = (splitSlash s).map urlEscape :=
+  ⟨urlUnescape_urlEscape s, decodeOnce_urlEscape s, splitSlash_urlEscape s⟩
+
+/-- Decoded exactly once for hand-built `url.URL{Path: p}` values (no RawPath): `RouteHTTP` routes on
+    `EscapedPath()`, whose segments are the escaped Path segments — so by `C03_escape_roundtrip` every `*` capture is
+    the Path segment itself (escaped once by `EscapedPath`, decoded once by the matcher), and a `**` capture is the
+    `/`-join of the Path segments with RFC 6570 reserved bytes left percent-encoded. -/
+theorem C03_decode_once_path {ι : Type} (tbl : Table ι) (hwf : ∀ e ∈ tbl, WF e.2.2) (m q : Bytes)
+    (i : ι) (b : Captures) :
+    routeHTTP (routesOf tbl) m ⟨47 :: q, []⟩ = .found i b ↔
+      FirstMatch tbl m ((splitSlash q).map urlEscape) i b := by
+  unfold routeHTTP
+  rw [pathChoice_pathOnly (47 :: q) (by intro e; cases e), urlEscape_cons]
+  simp only [urlShouldEscape_slash, Bool.false_eq_true, ↓reduceIte]
+  rw [C03_route_iff tbl hwf, splitSlash_urlEscape]
 
 /-- Hand-built URLs as the repo's tests use them (`url.URL{RawPath: x}`) are routed on `x` itself. -/
 theorem C03_rawpath_first (x path : Bytes) (hx : x ≠ []) : pathChoice ⟨path, x⟩ = x := by
